@@ -142,6 +142,23 @@ def _judge_special(rng, tag):
         if not np.allclose(oa, ob, rtol=1e-10, atol=1e-10) or not np.allclose(ea.reservoir.state(), eb.reservoir.state(), atol=1e-10):
             out.append(_viol("esn-run:state-not-advanced", "ESN(feedback=%s): chunked run differs from the single run" % fb,
                              {"tag": tag, "kind": "esn", "fb": fb, "cut": cut}, oa.tolist(), ob.tolist()))
+    # ESN resumed from saved states: run(X[:k]); save states; reset; run(X[k:], from_state=saved) == tail of the whole run
+    for fb in (False, True):
+        kw = dict(units=3, W=W.copy(), Win=Win.copy(), lr=0.5, seed=5, feedback=fb)
+        if fb:
+            kw["Wfb"] = scen.fl(scengen.mat(core.random.Random(tag), 3, 1, 2, 1))
+        ea = ESN(name="esnfs%s_a%d" % (tag, fb), **kw); eb = ESN(name="esnfs%s_b%d" % (tag, fb), **kw)
+        for e in (ea, eb):
+            e.fit(X, Y); e.reservoir.reset(); e.readout.reset()
+        oa = ea.run(X)
+        k = cut[0]
+        o1 = eb.run(X[:k])
+        saved = {eb.reservoir.name: eb.reservoir.state().copy(), eb.readout.name: eb.readout.state().copy()}
+        eb.reservoir.reset(); eb.readout.reset()
+        o2 = eb.run(X[k:], from_state=saved)
+        if not np.allclose(oa, np.vstack([o1, o2]), rtol=1e-10, atol=1e-10):
+            out.append(_viol("esn-run:from_state-ignored", "ESN(feedback=%s): resuming a run with from_state=<states saved after the first chunk> differs from the single run" % fb,
+                             {"tag": tag, "kind": "esn-from-state", "fb": fb, "k": k}, oa[k:].tolist(), o2.tolist()))
     # ESN whose reservoir keeps hidden memory (NVAR store): ESN.run carries only the states over (open finding)
     from reservoirpy.nodes import NVAR, Ridge, Delay
     def mk_nv(t):
